@@ -59,6 +59,11 @@ def mk_cmp(op, l, r):
                 return a
             if is_const(b) and b[1] is False and _boolish(a):
                 return mk_not(a)
+        # the result of an arithmetic / bitwise operation, a comparison, a display or a bound method of self is never None
+        for a, b in ((l, r), (r, l)):
+            if is_const(b) and b[1] is None and (a[0] in ("bin", "cmp", "list", "tuple", "dict", "cat") or
+                                                 (a[0] == "not")):
+                return ("c", False)
         a, b = sorted((l, r), key=skey)
         return ("cmp", "==", a, b)
     if op in ("!=", "is not"):
@@ -78,6 +83,9 @@ def mk_cmp(op, l, r):
             return ("c", any(k == l for k, _ in r[1]))
         if r[0] in ("list", "tuple") and is_const(l) and all(is_const(x) for x in r[1]):
             return ("c", l in r[1])
+        if r[0] in ("list", "tuple", "set") and 0 < len(r[1]) <= 6 and all(is_const(x) for x in r[1]):
+            # x in (c1, c2, ...)  ==  x == c1 or x == c2 or ...
+            return mk_bool("or", [mk_cmp("==", l, x) for x in r[1]])
         return ("cmp", "in", l, r)
     if op == "not in":
         return mk_not(("cmp", "in", l, r))
